@@ -37,4 +37,25 @@ inductive MsgBranch where
   | coloredSimple    -- `Colorizer.prepare_simple_message(str(message)).stripped`
   deriving DecidableEq, Repr
 
+/-- the argument preparation of `Logger._log` between the creation of the record and the message chain,
+one constructor per `if` block of the source (Round 5) -/
+inductive PrepStep where
+  | forceLazy        -- `if lazy: args = [arg() for arg in args]; kwargs = {key: value() …}`
+  | captureExtra     -- `if capture and kwargs: log_record["extra"].update(kwargs)`
+  | bindRecord       -- `if record: if "record" in kwargs: raise TypeError; kwargs.update(record=log_record)`
+  deriving DecidableEq, Repr
+
+/-- which argument collection a statement of the `lazy` block evaluates -/
+inductive LazyPart where | args | kwargs
+  deriving DecidableEq, Repr
+
+/-- what `_parse_with_formatting` does with one replacement field, one constructor per statement (Round 5) -/
+inductive EvalStep where
+  | lookup     -- `obj, _ = formatter.get_field(field_name, args, kwargs)`
+  | convert    -- `obj = formatter.convert_field(obj, conversion)`
+  | expand     -- `format_spec, auto_arg_index = Colorizer._parse_with_formatting(format_spec, …)`
+  | format     -- `formatted = formatter.format_field(obj, format_spec)`
+  | feed       -- `parser.feed(formatted, raw=…)`
+  deriving DecidableEq, Repr
+
 end Format
